@@ -1,6 +1,7 @@
 import Sentinel.Proto
 import Sentinel.DriverC13
 import Sentinel.DriverC02
+import Sentinel.DriverWorld
 /-! Generic driver: reads a trace (`case <id>` headers, `<op> -> <obs>` lines) from stdin, checks
 every case with the property's `checkCase`, prints one line per case. -/
 namespace Sentinel
@@ -8,6 +9,7 @@ namespace Sentinel
 def checkerFor (prop : String) : Option (List (String × String) → Verdict) :=
   match prop with
   | "C02" => some DriverC02.checkCase
+  | "C01" | "C04" | "C05" => some DriverWorld.checkCase
   | "C13" => some DriverC13.checkCase
   | _ => none
 
